@@ -335,5 +335,24 @@ def rfwd_forwarding(chk: Check) -> None:
     shared.forwarding_rule(chk, "C10.FWD", ('specs/openapi/schemas.py:BaseOpenAPISchema.add_link', 'specs/openapi/stateful/'), "link definition fields", 1)
 
 
+def r6_pointer_index(chk: Check) -> None:
+    chk.rule("C10.R6", "STRICT-PARSE(JSON pointer array index, RFC 6901 section 4): where resolve_pointer subscripts a list with `int(token)`, the token is known to consist of ASCII digits - Python's int() also accepts `-1` (the LAST element), `+1`, ` 1`, `1_0`, so `$response.body#/items/-1` would resolve to a value and be sent instead of being unresolvable", floor=1)
+    P = chk.project
+    fn = P.func("core/transforms.py:resolve_pointer")
+    g = cfg_of(fn)
+    subs = [x for x in walk_body(fn.node) if isinstance(x, ast.Subscript) and isinstance(x.slice, ast.Call) and isinstance(x.slice.func, ast.Name) and x.slice.func.id == "int" and x.slice.args]
+    if not subs:
+        chk.undecided("C10.R6", fn, "list index conversion", "`<list>[int(token)]` not found", fn.loc())
+    for x in subs:
+        tok = unparse(x.slice.args[0])
+        facts = known_conditions(g, g.stmt_nodes_containing(x))
+        digits = any((f"{tok}.isdigit()" in k or f"{tok}.isdecimal()" in k or "fullmatch" in k or "match(" in k) and v for k, v in facts.items())
+        construct = f"{unparse(x, 40)} only for a digits token"
+        if digits:
+            chk.ok("C10.R6", fn, construct, "", fn.loc(x))
+        else:
+            chk.violation("C10.R6", fn, construct, f"`int({tok})` is applied to whatever the pointer says: `-1` selects the last array element, `+1` / ` 1` / `01` / `1_0` are accepted too - a link value that RFC 6901 makes unresolvable is evaluated and sent", fn.loc(x))
+
+
 def rules(tier: str) -> list:  # type: ignore[type-arg]
-    return [r1_exhaustive, r2_resolvability, r3_errors, r4_status_matching, r5_evaluate, rfwd_forwarding]
+    return [r1_exhaustive, r2_resolvability, r3_errors, r4_status_matching, r5_evaluate, rfwd_forwarding, r6_pointer_index]
